@@ -1,10 +1,261 @@
 import Driver.Common
-/-! C09 driver (stub: answers bad-op until the property's model is wired in). -/
-open Driver
+import Sourmash.Model.Datasets
+import Sourmash.Model.Index
+import Sourmash.Spec.Index
+/-! C09 driver: Datasets codec / union / merge trees, on-disk build under schedules and merge groupings,
+in-memory reducer along reduction trees, increments.  Request grammar: harness/src/bin/c09.rs. -/
+open Driver RevIdx
 
-def stepC09 (s : Unit) (ws : List String) : Unit × Resp :=
+namespace C09
+
+def codec : ManyCodec := roaringCodec
+
+def showDs (d : Datasets) : String := s!"{d.variant}:{showNats d.ids}"
+
+def showTable (t : List (Nat × List Nat)) : String :=
+  if t.isEmpty then "-" else ";".intercalate (t.map (fun (h, ids) => s!"{h}:{showNats ids}"))
+
+def fnv64 (bs : Bytes) : Nat :=
+  bs.foldl (fun h b => ((h ^^^ b) * 1099511628211) % 18446744073709551616) 14695981039346656037
+
+def hexBytes (bs : Bytes) : String := hex (bs.map UInt8.ofNat)
+
+def showBytes (sep : String) (bs : Bytes) : String :=
+  if bs.length ≤ 64 then s!"{bs.length}{sep}{fnv64 bs}{sep}{hexBytes bs}" else s!"{bs.length}{sep}{fnv64 bs}"
+
+def parseColl (s : String) : List (List Nat) := (s.splitOn ";").map natList
+
+def parseSet (s : String) : List Nat :=
+  if s.startsWith "l:" then natList (s.drop 2).toString
+  else match ((s.drop 2).toString.splitOn ":").map String.toNat! with
+    | [st, step, cnt] => (List.range cnt).map (fun i => st + i * step)
+    | _ => []
+
+/-- `Datasets::new` on a request's id list -/
+def mkDs (ids : List Nat) : Option Datasets := Datasets.new ids
+
+def lcg (x : Nat) : Nat := (x * 6364136223846793005 + 1442695040888963407) % 18446744073709551616
+
+def choicesFrom (seed n len : Nat) : List Nat :=
+  ((List.range len).foldl (fun (acc : Nat × List Nat) _ =>
+    let x := lcg acc.1
+    (x, (x / 8589934592) % (n + 1) :: acc.2)) (lcg seed, [])).2
+
+def groupingFrom (seed : Nat) : Grouping := chunkGrouping (seed % 5) ((seed / 5) % 4) ((seed / 20) % 2 == 1)
+
+def nWrites (C : List (List Nat)) : Nat := (C.map (fun d => d.length + 1)).foldl (· + ·) 0
+
+def showDb (db : Db) : String :=
+  let p := match db.processed with
+    | none => "absent"
+    | some b => showNats (Datasets.fromSlice codec b).ids
+  s!"H {showTable (db.scan codec)} P {p}"
+
+def specDb (C : List (List Nat)) : String :=
+  s!"H {showTable (refTable C)} P {if C.isEmpty then "absent" else showNats (List.range C.length)}"
+
+/-- balanced / left-deep reduction tree over the datasets in order -/
+partial def balanced : List Nat → RTree
+  | [] => .ident
+  | [d] => .leaf d
+  | ds => .node (balanced (ds.take (ds.length / 2))) (balanced (ds.drop (ds.length / 2)))
+
+def leftDeep (ds : List Nat) : RTree := ds.foldl (fun t d => .node t (.leaf d)) .ident
+
+partial def parseRTree : List String → Option (RTree × List String)
+  | "I" :: rest => some (.ident, rest)
+  | "N" :: rest => do
+    let (l, rest) ← parseRTree rest
+    let (r, rest) ← parseRTree rest
+    pure (.node l r, rest)
+  | t :: rest => if t.startsWith "L" then some (.leaf (t.drop 1).toString.toNat!, rest) else none
+  | [] => none
+
+def dedup (l : List (List Nat)) : List (List Nat) := l.foldl (fun acc x => if acc.contains x then acc else x :: acc) []
+
+def showHC (r : H2C × Colors) : String :=
+  let dump := dumpHC r
+  let used := dedup (dump.map (·.2))
+  s!"{showTable dump} cols={if r.2.length ≥ used.length then "ok" else "bad"}"
+
+/-- `none` = a `Datasets::new` panic on a leaf -/
+partial def parseMTree : List String → Option (MTree × List Nat × List String)
+  | t :: rest =>
+    if t.startsWith "L" then do
+      let ids := natList (t.drop 1).toString
+      let d ← mkDs ids
+      pure (.leaf (d.asBytes codec), ids, rest)
+    else
+      let n := (t.drop 1).toString.toNat!
+      let rec go (k : Nat) (rest : List String) (acc : List MTree) (ids : List Nat) : Option (List MTree × List Nat × List String) :=
+        match k with
+        | 0 => some (acc.reverse, ids, rest)
+        | k + 1 => do
+          let (t, i, rest) ← parseMTree rest
+          go k rest (t :: acc) (ids ++ i)
+      do
+        let (ts, ids, rest) ← go n rest [] []
+        pure (.node ts, ids, rest)
+  | [] => none
+
+partial def parseForest (toks : List String) (acc : List (List MTree)) (ids : List Nat) : Option (List (List MTree) × List Nat) :=
+  match toks with
+  | [] => some (acc.reverse, ids)
+  | g :: rest =>
+    let n := (g.drop 1).toString.toNat!
+    let rec go (k : Nat) (rest : List String) (grp : List MTree) (ids : List Nat) : Option (List MTree × List Nat × List String) :=
+      match k with
+      | 0 => some (grp.reverse, ids, rest)
+      | k + 1 => do
+        let (t, i, rest) ← parseMTree rest
+        go k rest (t :: grp) (ids ++ i)
+    do
+      let (grp, ids, rest) ← go n rest [] ids
+      parseForest rest (grp :: acc) ids
+
+/-- mergedb tokens -> (existing, forest, all ids, any operand) : groups end at `C`, partial merges at `F` -/
+def parseMergeDb (toks : List String) : Option (Option Bytes × List (List MTree) × List Nat × Bool) := do
+  let mut ex : Option Bytes := none
+  let mut ids : List Nat := []
+  let mut groups : List (List MTree) := []
+  let mut grp : List MTree := []
+  let mut run : List Bytes := []
+  let mut any := false
+  let close (run : List Bytes) (grp : List MTree) : List MTree :=
+    match run with
+    | [] => grp
+    | [b] => grp ++ [MTree.leaf b]
+    | bs => grp ++ [MTree.node (bs.map MTree.leaf)]
+  for t in toks do
+    if t.startsWith "P" then
+      let l := natList (t.drop 1).toString
+      let d ← mkDs l
+      ex := some (d.asBytes codec)
+      ids := ids ++ l
+      any := true
+    else if t.startsWith "L" then
+      let l := natList (t.drop 1).toString
+      let d ← mkDs l
+      run := run ++ [d.asBytes codec]
+      ids := ids ++ l
+      any := true
+    else if t == "F" then
+      grp := close run grp
+      run := []
+    else
+      grp := close run grp
+      run := []
+      if !grp.isEmpty then groups := groups ++ [grp]
+      grp := []
+  grp := close run grp
+  if !grp.isEmpty then groups := groups ++ [grp]
+  pure (ex, groups, ids, any)
+
+def recordsOf (C : List (List Nat)) : List (Nat × List Nat) := (List.range C.length).map (fun i => (i, C.getD i []))
+
+def stepC09 (C : List (List Nat)) (ws : List String) : List (List Nat) × Resp :=
   match ws with
-  | "case" :: _ => (s, { model := "ok" })
-  | _ => (s, { model := "bad-op" })
+  | ["case", _, "coll", s] => (parseColl s, { model := "ok" })
+  | "case" :: _ => ([], { model := "ok" })
+  | ["build", t, seed, _] =>
+    let seed := seed.toNat! + 7919 * t.toNat!
+    let db := createDb codec C (choicesFrom seed C.length (2 * nWrites C)) (groupingFrom seed)
+    (C, { model := showDb db, spec := specDb C })
+  | ["membuild", t] =>
+    let tree := if t.toNat! == 1 then leftDeep (List.range C.length) else balanced (List.range C.length)
+    let r := match tree.eval C with
+      | some r => s!"H {showTable (dumpHC r)}"
+      | none => "PANIC"
+    (C, { model := r, spec := s!"H {showTable (refTable C)}" })
+  | ["extend", split, _, t, seed] =>
+    let split := split.toNat!
+    let seed := seed.toNat! + 7919 * t.toNat!
+    let C1 := C.take split
+    let db1 := createDb codec C1 (choicesFrom (seed + 1) C1.length (2 * nWrites C1)) (groupingFrom (seed / 3))
+    let r := match updateDb codec db1 (recordsOf C1) (recordsOf C) C (choicesFrom seed C.length (2 * nWrites C)) (groupingFrom seed) with
+      | some db => showDb db
+      | none => "err MismatchKSizes"
+    (C, { model := r, spec := specDb C })
+  | ["reject", split, k, kind] =>
+    let split := split.toNat!
+    let k := k.toNat!
+    let C1 := C.take split
+    let db1 := createDb codec C1 [] (groupingFrom 0)
+    let changed : Nat × List Nat := if kind == "hashes" then (k, insertId 999983 (C.getD k [])) else (k + 1000000, C.getD k [])
+    let newRecs := (recordsOf C).map (fun r => if r.1 == k then changed else r)
+    let C' := newRecs.map (·.2)
+    let r := match updateDb codec db1 (recordsOf C1) newRecs C' [] (groupingFrom 1) with
+      | some db => showDb db
+      | none => "err MismatchKSizes"
+    (C, { model := r, spec := "err MismatchKSizes" })
+  | ["truncate", split, m] =>
+    let C1 := C.take split.toNat!
+    let C2 := C.take m.toNat!
+    let db1 := createDb codec C1 [] (groupingFrom 0)
+    let r := match updateDb codec db1 (recordsOf C1) (recordsOf C2) C2 [] (groupingFrom 1) with
+      | some db => showDb db
+      | none => "err MismatchKSizes"
+    (C, { model := r })
+  | "reduce" :: toks =>
+    let r := match parseRTree toks with
+      | some (t, _) => match t.eval C with
+        | some r => showHC r
+        | none => "PANIC"
+      | none => "bad-op"
+    (C, { model := r, spec := s!"{showTable (refTable C)} cols=ok" })
+  | "mergedb" :: toks =>
+    match parseMergeDb toks with
+    | none => (C, { model := "PANIC" })
+    | some (ex, groups, ids, any) =>
+      let m := match evalKey codec ex groups with
+        | none => "absent"
+        | some b => showDs (Datasets.fromSlice codec b)
+      (C, { model := m, spec := if any then showDs (Datasets.ofList ids) else "absent" })
+  | "mergetree" :: ex :: toks =>
+    let exB : Option (Option Bytes × List Nat) :=
+      if ex == "none" then some (none, []) else (mkDs (natList ex)).map (fun d => (some (d.asBytes codec), natList ex))
+    match exB, parseForest toks [] [] with
+    | some (exb, exIds), some (groups, ids) =>
+      let m := match evalKey codec exb groups with
+        | none => "absent"
+        | some b => s!"{showDs (Datasets.fromSlice codec b)}:{showBytes "/" b}"
+      let canon := Datasets.ofList (exIds ++ ids)
+      let sp := if exb.isNone && groups.isEmpty then "absent" else s!"{showDs canon}:{showBytes "/" (canon.asBytes codec)}"
+      (C, { model := m, spec := sp })
+    | _, _ => (C, { model := "PANIC" })
+  | ["enc", set] =>
+    let r := match mkDs (parseSet set) with
+      | some d => showBytes " " (d.asBytes codec)
+      | none => "PANIC"
+    (C, { model := r })
+  | ["encok", set] =>
+    let ids := parseSet set
+    let r := match mkDs ids with
+      | none => "PANIC"
+      | some d =>
+        let bs := d.asBytes codec
+        let back := Datasets.fromSlice codec bs
+        let lenOk := ids.length < 2 || (bs.length != 1 && bs.length != 8)
+        if lenOk && back.ids == ids && back.variant == min ids.length 2 && back.len == ids.length
+            && ids.all (fun i => back.contains i) then "ok"
+        else s!"bad len={bs.length} variant={back.variant} n={back.ids.length}"
+    (C, { model := r, spec := "ok" })
+  | ["dec", hx] =>
+    (C, { model := showDs (Datasets.fromSlice codec ((unhex hx).map UInt8.toNat)) })
+  | ["union", a, b] =>
+    let r := match mkDs (natList a), mkDs (natList b) with
+      | some x, some y => showDs (x.union y)
+      | _, _ => "PANIC"
+    (C, { model := r, spec := showDs (Datasets.ofList (natList a ++ natList b)) })
+  | ["ext", a, ids] =>
+    let ids := natList ids
+    let r := match mkDs (natList a) with
+      | some x => showDs (x.extend ids)
+      | none => "PANIC"
+    -- the index only ever extends by one id; the property says nothing about longer iterators
+    (C, { model := r, spec := if ids.length ≤ 1 then showDs (Datasets.ofList (natList a ++ ids)) else "-" })
+  | _ => (C, { model := "bad-op" })
 
-def main : IO Unit := Driver.run () stepC09
+end C09
+
+def main : IO Unit := Driver.run [] C09.stepC09
